@@ -124,6 +124,20 @@ VDRIVE_OP(bddincl)
 	// bottom-up encoding
 	v["bu_up"] = guarded("bu_up", [&] { BU a; loadBdd(a, ja); BU bc = mkSecond(a, jb, bmode); const BU& b = (bmode == "alias") ? a : bc; return BU::CheckInclusion(a, b, mkParam(false, false, false, false)); });
 	v["bu_dr_sim"] = guarded("bu_dr_sim", [&] { BU a; loadBdd(a, ja); BU bc = mkSecond(a, jb, bmode); const BU& b = (bmode == "alias") ? a : bc; return BU::CheckInclusion(a, b, mkParam(true, true, false, true)); });
+	// the same selection with the simulation computed by the caller and ATTACHED to the parameters (the recipe of cli/operations.hh
+	// and of the unit tests: sanitise, disjoint union, downward simulation over the number of states, SetSimulation)
+	v["bu_dr_sim_att"] = guarded("bu_dr_sim_att", [&] {
+		BU a; loadBdd(a, ja); BU b = mkSecond(a, jb, bmode == "alias" ? std::string("copy") : bmode);
+		AutBase::StateType states = AutBase::SanitizeAutsForInclusion(a, b);
+		BU u = BU::UnionDisjointStates(a, b);
+		SimParam sp;
+		sp.SetRelation(SimParam::e_sim_relation::TA_DOWNWARD);
+		sp.SetNumStates(states);
+		AutBase::StateDiscontBinaryRelation sim = u.ComputeSimulation(sp);
+		InclParam ip = mkParam(true, true, false, true);
+		ip.SetSimulation(&sim);
+		return BU::CheckInclusion(a, b, ip);
+	});
 	// top-down encoding
 	v["td_dr"] = guarded("td_dr", [&] { TD a; loadBdd(a, ja); TD bc = mkSecond(a, jb, bmode); const TD& b = (bmode == "alias") ? a : bc; return TD::CheckInclusion(a, b, mkParam(true, true, false, false)); });
 	v["td_dro"] = guarded("td_dro", [&] { TD a; loadBdd(a, ja); TD bc = mkSecond(a, jb, bmode); const TD& b = (bmode == "alias") ? a : bc; return TD::CheckInclusion(a, b, mkParam(true, true, true, false)); });
@@ -174,6 +188,12 @@ void toTopDown(BddHist<Aut>&, int, int) { throw std::runtime_error("vdrive: totd
 template <>
 void toTopDown<BU>(BddHist<BU>& H, int i, int j) { H.t[i].reset(new TD(H.h[j]->GetTopDownAut())); }
 
+// RemoveUnreachableStates with the optional out-container (bottom-up encoding only; the top-down one has no such overload)
+template <class Aut>
+Aut unreachWithSet(const Aut& a) { return a.RemoveUnreachableStates(); }
+template <>
+BU unreachWithSet<BU>(const BU& a) { AutBase::StateHT reach; return a.RemoveUnreachableStates(&reach); }
+
 template <class Aut>
 json runBddHist(const json& c)
 {
@@ -194,10 +214,26 @@ json runBddHist(const json& c)
 		else if (op == "destroy") { H.h[i].reset(); }
 		else if (op == "final") { size_t q = st.at(2).get<size_t>(); ev["q"] = q; H.h[i]->SetStateFinal(q); }
 		else if (op == "tdestroy") { H.t[i].reset(); }
-		else if (op == "union") { int j = st.at(2).get<int>(), k = st.at(3).get<int>(); ev["j"] = j; ev["k"] = k; H.h[i].reset(new Aut(Aut::Union(*H.h[j], *H.h[k]))); }
+		// an optional trailing `true` selects the overload WITH the optional out-arguments (translation maps / reachable set)
+		else if (op == "union")
+		{
+			int j = st.at(2).get<int>(), k = st.at(3).get<int>(); ev["j"] = j; ev["k"] = k;
+			if (st.size() > 4 && st.at(4).get<bool>()) { AutBase::StateToStateMap ml, mr; H.h[i].reset(new Aut(Aut::Union(*H.h[j], *H.h[k], &ml, &mr))); }
+			else { H.h[i].reset(new Aut(Aut::Union(*H.h[j], *H.h[k]))); }
+		}
 		else if (op == "uniondisj") { int j = st.at(2).get<int>(), k = st.at(3).get<int>(); ev["j"] = j; ev["k"] = k; H.h[i].reset(new Aut(Aut::UnionDisjointStates(*H.h[j], *H.h[k]))); }
-		else if (op == "isect") { int j = st.at(2).get<int>(), k = st.at(3).get<int>(); ev["j"] = j; ev["k"] = k; H.h[i].reset(new Aut(Aut::Intersection(*H.h[j], *H.h[k]))); }
-		else if (op == "unreach") { int j = st.at(2).get<int>(); ev["j"] = j; H.h[i].reset(new Aut(H.h[j]->RemoveUnreachableStates())); }
+		else if (op == "isect")
+		{
+			int j = st.at(2).get<int>(), k = st.at(3).get<int>(); ev["j"] = j; ev["k"] = k;
+			if (st.size() > 4 && st.at(4).get<bool>()) { AutBase::ProductTranslMap pm; H.h[i].reset(new Aut(Aut::Intersection(*H.h[j], *H.h[k], &pm))); }
+			else { H.h[i].reset(new Aut(Aut::Intersection(*H.h[j], *H.h[k]))); }
+		}
+		else if (op == "unreach")
+		{
+			int j = st.at(2).get<int>(); ev["j"] = j;
+			if (st.size() > 3 && st.at(3).get<bool>()) { H.h[i].reset(new Aut(unreachWithSet(*H.h[j]))); }
+			else { H.h[i].reset(new Aut(H.h[j]->RemoveUnreachableStates())); }
+		}
 		else if (op == "useless") { int j = st.at(2).get<int>(); ev["j"] = j; H.h[i].reset(new Aut(H.h[j]->RemoveUselessStates())); }
 		else if (op == "totd") { int j = st.at(2).get<int>(); ev["j"] = j; toTopDown(H, i, j); }
 		else { throw std::runtime_error("vdrive: bad bdd step"); }
@@ -306,5 +342,85 @@ VDRIVE_OP(bddagree)
 	json res;
 	res["count"] = count;
 	res["suspicious"] = suspicious;
+	return res;
+}
+
+// ---------------------------------------------------------------- agreement arm for C07
+// {"op":"bddinclagree","seed":S,"count":N}: seeded random pairs (half of them nearly included), every implemented BDD selection
+// (incl. the attached-simulation recipe); pairs on which the verdicts are not all equal come back as ordinary "bddincl" cases
+// (inputs only - the check re-runs them through the bddincl op and TLC judges the verdicts).
+VDRIVE_OP(bddinclagree)
+{
+	std::mt19937 rng(c.at("seed").get<unsigned>());
+	size_t count = c.at("count").get<size_t>();
+	json disagree = json::array();
+	size_t noninc = 0;
+	for (size_t i = 0; i < count; ++i)
+	{
+		json ja = randTreeAut(rng, 2 + rng() % 4, 3 + rng() % 7, 0);
+		json jb = randTreeAut(rng, 2 + rng() % 4, 3 + rng() % 8, (rng() % 2) ? 0 : 10);
+		if (rng() % 2)
+		{	// nearly included: B = A shifted, a rule dropped sometimes, a few rules added
+			json rules = json::array();
+			size_t drop = ja["rules"].empty() ? 0 : rng() % ja["rules"].size();
+			bool doDrop = (rng() % 100 < 35);
+			for (size_t k = 0; k < ja["rules"].size(); ++k)
+			{
+				if (doDrop && k == drop) { continue; }
+				json r = ja["rules"][k];
+				for (auto& kid : r[1]) { kid = kid.get<size_t>() + 20; }
+				r[2] = r[2].get<size_t>() + 20;
+				rules.push_back(r);
+			}
+			json extra = randTreeAut(rng, 3, rng() % 4, 20);
+			for (auto& r : extra["rules"]) { rules.push_back(r); }
+			json fin = json::array();
+			for (auto& q : ja["fin"]) { fin.push_back(q.get<size_t>() + 20); }
+			jb = json::object();
+			jb["fin"] = fin; jb["rules"] = rules;
+		}
+		SetStage(("bddinclagree pair " + std::to_string(i)).c_str());
+		std::vector<std::string> v;
+		auto run = [&v](const std::function<bool()>& f) {
+			try { v.push_back(f() ? "T" : "F"); }
+			catch (const VATA::NotImplementedException&) { v.push_back("N"); }
+			catch (const std::exception& e) { v.push_back("X:" + ExcName(e)); }
+		};
+		BU a0, b0;
+		loadBdd(a0, ja); loadBdd(b0, jb);
+		run([&] { return BU::CheckInclusion(a0, b0, mkParam(false, false, false, false)); });
+		run([&] { return BU::CheckInclusion(a0, b0, mkParam(true, true, false, true)); });
+		run([&] {
+			BU a(a0), b(b0);
+			AutBase::StateType states = AutBase::SanitizeAutsForInclusion(a, b);
+			BU u = BU::UnionDisjointStates(a, b);
+			SimParam sp;
+			sp.SetRelation(SimParam::e_sim_relation::TA_DOWNWARD);
+			sp.SetNumStates(states);
+			AutBase::StateDiscontBinaryRelation sim = u.ComputeSimulation(sp);
+			InclParam ip = mkParam(true, true, false, true);
+			ip.SetSimulation(&sim);
+			return BU::CheckInclusion(a, b, ip);
+		});
+		TD ta, tb;
+		loadBdd(ta, ja); loadBdd(tb, jb);
+		run([&] { return TD::CheckInclusion(ta, tb, mkParam(true, true, false, false)); });
+		run([&] { return TD::CheckInclusion(ta, tb, mkParam(true, true, true, false)); });
+		bool same = true;
+		for (auto& x : v) { if (x != v[0] || (x != "T" && x != "F")) { same = false; } }
+		if (v[0] == "F") { ++noninc; }
+		if (!same && disagree.size() < 25)
+		{
+			json ev;
+			ev["op"] = "bddincl"; ev["A"] = ja; ev["B"] = jb; ev["src"] = "bdd-incl-agreement-arm";
+			ev["id"] = json::array({"bddinclagree", c.at("seed"), i});
+			ev["seen"] = v;
+			disagree.push_back(ev);
+		}
+	}
+	json res;
+	res["count"] = count;
+	res["nonincluded"] = noninc;
+	res["disagree"] = disagree;
 	return res;
 }
